@@ -8,7 +8,7 @@ Open Scope Z_scope.
 Definition kind_of (inp : sx) : Z := match inp with L (A k :: _) => k | _ => -1 end.
 
 Definition check (prop : Z) (inp impl : sx) : sx :=
-  if (prop =? 12) && (kind_of inp =? 1) then check_c12 inp impl
+  if (prop =? 12) && ((kind_of inp =? 1) || (kind_of inp =? 30)) then check_c12 inp impl
   else match kind_of inp with
        | 1 => check_eng prop inp impl
        | 2 => check_doc prop inp impl
@@ -19,7 +19,7 @@ Definition check (prop : Z) (inp impl : sx) : sx :=
        | 18 => check_shared prop inp impl
        | 19 => check_hs_timed prop inp impl
        | 21 => check_req prop inp impl
-       | 15 | 16 => check_life prop inp impl
+       | 15 | 16 | 29 => check_life prop inp impl
        | 17 => check_kern prop inp impl
        | _ => badcase
        end.
